@@ -7,8 +7,10 @@ import vlib
 from props import headers_common as hc
 from props import c05_framing
 from props import c05_http
+from props import c05_thrift
 
 HARNESS_BINS = ["vh", "vh_c05"]
+NEEDS_FRUGAL = True          # the generated-code laboratory (props/c05_thrift.py)
 
 SIZES = [0, 1, 3, 4, 5, 7, 8, 9, 0x7fffffff, 0x80000000, 0xffffffff]
 ALPHA = [0x00, 0x01, 0x04, 0x05, 0x7f, 0x80, 0xff]
@@ -234,31 +236,37 @@ def run(ctx, br):
                    {(rx, b) for (rx, b) in c5meta})
     framing = c05_framing.run(ctx)
     http = c05_http.run(ctx)
+    thrift = c05_thrift.run(ctx)
     ctx.assumptions += [
         "framing layer: a Read on the connection returns at least one byte or an error; the connection reports "
         "errors as TTransportException (as TSocket does); bufio.Reader as in Go 1.23 (transcribed)",
         "HTTP: net/http is outside the model (it starts from status, body as read, body-read failure); "
         "encoding/base64 StdEncoding is transcribed and compared with the implementation on every run",
         "messages shorter than 2^31 bytes",
-        "Apache Thrift protocol readers and generated struct readers under the Frugal header are assumed graceful "
-        "(parameter thrift_layer of the theorems); they are exercised here only through the streams",
+        "Thrift layer under the Frugal header (Model/ThriftLayer.v): TBinaryProtocol / TCompactProtocol readers, thrift.Skip, "
+        "the generated Read through FProtocol, FBaseProcessor.Process are transcribed and proved graceful for every environment, "
+        "processor map and handler whose results can be written without a nil dereference; TJSONProtocol is not modelled; "
+        "sizes above Thrift's 100 MB message limit are not modelled (frames are at most 16 MB); the model has no stack: the "
+        "recursion of the generated Read is bounded by 64 structs times the depth of the declared types",
         "a header block announcing up to 2 GiB makes the stream reader allocate that much before failing: a resource "
         "issue, not modelled",
     ]
     return {
-        "evaluations": len(meta) + len(c5meta) + framing["evaluations"] + http["evaluations"],
-        "distinct_nontrivial": distinct + framing["distinct"] + http["distinct"],
+        "evaluations": len(meta) + len(c5meta) + framing["evaluations"] + http["evaluations"] + thrift["evaluations"],
+        "distinct_nontrivial": distinct + framing["distinct"] + http["distinct"] + thrift["distinct"],
         "framing": framing,
         "http_io": http,
+        "thrift_layer": thrift,
         "rule": "three streams per entry point: boundary values at every size-field position of 0..3 pairs; all byte strings "
                 "of length <= %d over {00,01,04,05,7f,80,ff}; mutations (truncate, bit flips, splice) of valid frames; "
                 "plus the inputs that crashed the pinned tree. Entry points: readHeader, getHeadersFromFrame, "
                 "ReadRequestHeader, ExecuteFrame, NATS client inbox, NATS server, NATS scope subscriber, STOMP subscriber, "
                 "HTTP handler (base64 and raw bodies), adapter read loop over a pipe. Non-trivial = rejected input or "
                 "end-to-end delivery; distinct by (entry, bytes)" % (4 if quick else 6),
-        "traces_validated_against_impl": sum(1 for v in v1 + v2 if v >= 0) + framing["validated"] + http["validated"],
-        "judge_mismatches": mism + framing["mismatches"] + http["mismatches"],
-        "oracle_failures": viol + framing["oracle_failures"] + http["oracle_failures"],
+        "traces_validated_against_impl": sum(1 for v in v1 + v2 if v >= 0) + framing["validated"] + http["validated"]
+                                         + thrift["validated"],
+        "judge_mismatches": mism + framing["mismatches"] + http["mismatches"] + thrift["mismatches"],
+        "oracle_failures": viol + framing["oracle_failures"] + http["oracle_failures"] + thrift["oracle_failures"],
         "model_branch_tags": len(tags),
         "input_histogram": hist,
         "parser_inputs_rejected": rejected,
